@@ -7,7 +7,7 @@
 From Coq Require Import ZArith List Bool Lia Permutation.
 Import ListNotations.
 Require Import Base.Py Base.ZList Model.Sort Model.Fam_ape
-  Proofs.SortPerm Proofs.Fam_ape_codec Proofs.Fam_ape_locate Proofs.Fam_ape_save Proofs.Fam_ape_props Proofs.Fam_ape_examples.
+  Proofs.SortPerm Proofs.Fam_ape_codec Proofs.Fam_ape_locate Proofs.Fam_ape_save Proofs.Fam_ape_props Proofs.Fam_ape_mirror Proofs.Fam_ape_examples.
 Open Scope Z_scope.
 
 (* LE32 codec *)
@@ -36,6 +36,14 @@ Theorem C01_ape_save_load : forall real f items f',
   ape_load f' = Ok (canon items) /\ Permutation (sort_items items) items.
 Proof. exact C01_save_load. Qed.
 Print Assumptions C01_ape_save_load.
+
+(* the same through the MIRROR of mutagen's own reader (_APEv2Data + APEv2.__parse_tag); text and external
+   values must be valid UTF-8 (mutagen holds them as str), binary values are arbitrary *)
+Theorem C01_ape_save_mut_load : forall real f items f',
+  ape_wf f = true -> forallb item_valid items = true -> forallb text_ok items = true ->
+  ape_save real f items = Ok f' -> ape_mut_load real f' = Ok (canon items).
+Proof. exact C01_save_mut_load. Qed.
+Print Assumptions C01_ape_save_mut_load.
 
 (* the strict reader on any body followed by a rendered tag *)
 Theorem C01_ape_parse_rendered : forall body items,
